@@ -70,8 +70,7 @@ LEVEL_TEXT = ('Machine-checked proof (Coq 8.16.1) over the executable session mo
               '(also containing a relationship), keys declared on a subclass and many-to-many link tables the schema SQLite holds must carry the constraint and a duplicate committed by a second session must be refused.')
 LEVEL_NOTE = ('Trusted: Coq kernel + vm_compute; the hand-written model (tied by differential runs only); the fuzzer harness; the SQLite reference semantics - '
               'in particular the theorem about committed rows is as strong as the model of SQLite constraint enforcement, which the per-commit row dumps and the '
-              'error class of every failing flush validate. No duplicate ever reached the database; two known findings concern the session only (a creation that succeeds with two live objects '
-              'holding one unique value - refused later by the flush; the phantom of a failed creation). The defect "auto-generated id collides with a cached object" leaves an orphan row '
+              'error class of every failing flush validate. No duplicate ever reached the database; one known finding concerns the session only (a creation that succeeds with two live objects holding one unique value - refused later by the flush); the phantom of a failed creation was repaired in /repo by 751c8a4 and is recorded as fixed. The defect "auto-generated id collides with a cached object" leaves an orphan row '
               'but no duplicate key; it is recorded under C09.')
 TECHNIQUE = 'Coq inductive invariant over an executable session + database model (all histories, fold_left) with a generic frame traversal; vm_compute correspondence with real Pony+SQLite on generated histories; property-oracle search with ddmin shrinking'
 DESIGN_REF = 'DESIGN.md section 5, C14 and Appendix A'
